@@ -4,6 +4,7 @@ import (
 	"fmt"
 	"go/token"
 	"go/types"
+	"os"
 	"sort"
 	"strings"
 
@@ -65,7 +66,10 @@ type PathState struct {
 	mem    map[*ssa.Alloc]ssa.Value // last value stored into tracked local cells on this path
 	loads  map[*ssa.UnOp]ssa.Value  // value each executed load of a tracked cell observed on this path
 	Sink   ssa.Instruction
-	armed  bool // the From instruction has been passed (always true when the query has no From)
+	rets   map[*ssa.Call][]ssa.Value    // resolved results of calls whose callee was explored inline on this path
+	bind   map[*ssa.Parameter]ssa.Value // parameters of inlined callees bound to the caller's arguments
+	inl    string                       // which callee path was taken at each inlined call (part of the state key)
+	armed  bool                         // the From instruction has been passed (always true when the query has no From)
 	// ArmedAt is the index into Blocks of the block containing From (0 without From).
 	ArmedAt int
 }
@@ -74,6 +78,12 @@ type PathState struct {
 func (s *PathState) Resolve(v ssa.Value) ssa.Value {
 	for i := 0; i < 32; i++ {
 		switch x := v.(type) {
+		case *ssa.Parameter:
+			if r, ok := s.bind[x]; ok && r != v {
+				v = r
+				continue
+			}
+			return v
 		case *ssa.Phi:
 			r, ok := s.phi[x]
 			if !ok || r == v {
@@ -104,6 +114,25 @@ func (s *PathState) Resolve(v ssa.Value) ssa.Value {
 		}
 	}
 	return v
+}
+
+// Returned: when the callee of the call that produced v was explored inline on this path, the value the callee
+// returned for that result on this path (nil otherwise). Call results themselves stay opaque for Resolve so that
+// rules can keep matching on the callee.
+func (s *PathState) Returned(v ssa.Value) ssa.Value {
+	switch x := v.(type) {
+	case *ssa.Call:
+		if r, ok := s.rets[x]; ok && len(r) == 1 {
+			return r[0]
+		}
+	case *ssa.Extract:
+		if c, ok := x.Tuple.(*ssa.Call); ok {
+			if r, ok := s.rets[c]; ok && x.Index < len(r) {
+				return r[x.Index]
+			}
+		}
+	}
+	return nil
 }
 
 // CellValue returns the value last stored into a tracked local cell on this path (nil if unknown).
@@ -234,10 +263,12 @@ type PathQuery struct {
 	Cut               func(ssa.Instruction) bool   // a path silently ends at such an instruction (not recorded)
 	Track             []ssa.Value                  // values whose per-path resolution the rule will ask for (their phis join the state key)
 	NoSummaries       bool                         // do not expand literals about helper results into the helper's own guards
-	ContinueAfterSink bool                         // record the state at a sink and keep walking (default: the path ends at the sink)
-	KeepLoopFacts     bool                         // do not forget loop-local facts on back edges (for single-iteration queries)
-	MaxStates         int                          // default 200000
-	Steps             int                          // out: number of (block,state) pairs visited
+	NoInline          bool                         // do not explore small repo callees inline
+	depth             int
+	ContinueAfterSink bool // record the state at a sink and keep walking (default: the path ends at the sink)
+	KeepLoopFacts     bool // do not forget loop-local facts on back edges (for single-iteration queries)
+	MaxStates         int  // default 200000
+	Steps             int  // out: number of (block,state) pairs visited
 }
 
 type pstate struct {
@@ -247,8 +278,26 @@ type pstate struct {
 	from *ssa.BasicBlock
 }
 
-// Run explores and returns the recorded states at sinks.
+// Run explores and returns the recorded states at sinks. Inline exploration of helpers is tried first under a
+// small state budget; if that budget is exceeded the query is repeated without inlining under the full budget.
 func (q *PathQuery) Run() ([]*PathState, error) {
+	if q.NoInline || q.depth > 0 || os.Getenv("FRPSA_NOINLINE") == "1" {
+		q.NoInline = true
+		return q.run()
+	}
+	full := q.MaxStates
+	q.MaxStates = 6000
+	states, err := q.run()
+	if err == nil {
+		return states, nil
+	}
+	q.MaxStates = full
+	q.NoInline = true
+	q.Steps = 0
+	return q.run()
+}
+
+func (q *PathQuery) run() ([]*PathState, error) {
 	fn := q.Fn
 	if fn == nil || len(fn.Blocks) == 0 {
 		return nil, fmt.Errorf("no function body")
@@ -283,7 +332,7 @@ func (q *PathQuery) Run() ([]*PathState, error) {
 			return out, fmt.Errorf("path exploration exceeded %d states in %s", q.MaxStates, fn)
 		}
 		st := cur.st
-		st = &PathState{Lits: st.Lits, Events: st.Events, Blocks: append(append([]int{}, st.Blocks...), cur.blk.Index), phi: st.phi, mem: st.mem, loads: st.loads, armed: st.armed, ArmedAt: st.ArmedAt}
+		st = &PathState{Lits: st.Lits, Events: st.Events, Blocks: append(append([]int{}, st.Blocks...), cur.blk.Index), phi: st.phi, mem: st.mem, loads: st.loads, rets: st.rets, bind: st.bind, inl: st.inl, armed: st.armed, ArmedAt: st.ArmedAt}
 		ended := false
 		for i := cur.idx; i < len(cur.blk.Instrs); i++ {
 			in := cur.blk.Instrs[i]
@@ -312,6 +361,16 @@ func (q *PathQuery) Run() ([]*PathState, error) {
 			if !st.armed && in == q.From {
 				st.armed = true
 				st.ArmedAt = len(st.Blocks) - 1
+			}
+			if call, ok := in.(*ssa.Call); ok && !q.NoInline && q.depth == 0 {
+				if forks := q.inlineCall(st, call); forks != nil {
+					for _, ns := range forks {
+						ns.Blocks = st.Blocks
+						stack = append(stack, pstate{blk: cur.blk, idx: i + 1, st: ns})
+					}
+					ended = true
+					break
+				}
 			}
 			switch x := in.(type) {
 			case *ssa.UnOp:
@@ -411,7 +470,7 @@ func addEvent(evs []Event, e Event) []Event {
 
 // enter moves along edge from→to: resolves to's phis (parallel assignment) and forgets loop-local facts on back edges.
 func (q *PathQuery) enter(from, to *ssa.BasicBlock, st *PathState) pstate {
-	ns := &PathState{Lits: st.Lits, Events: st.Events, Blocks: st.Blocks, phi: st.phi, mem: st.mem, loads: st.loads, armed: st.armed, ArmedAt: st.ArmedAt}
+	ns := &PathState{Lits: st.Lits, Events: st.Events, Blocks: st.Blocks, phi: st.phi, mem: st.mem, loads: st.loads, rets: st.rets, bind: st.bind, inl: st.inl, armed: st.armed, ArmedAt: st.ArmedAt}
 	predIdx := -1
 	for i, p := range to.Preds {
 		if p == from {
@@ -542,6 +601,47 @@ func (q *PathQuery) assume(st *PathState, t *ssa.If, outcome bool) (*PathState, 
 		return st, true
 	}
 	nl := append(append([]Lit{}, st.Lits...), lit)
+	// the callee of this call result was explored inline: the literal also holds for what the callee returned on this
+	// path — prune the combination if that is impossible, otherwise record it too
+	mirror := func(v ssa.Value) ssa.Value {
+		if r := st.Returned(v); r != nil {
+			return r
+		}
+		return v
+	}
+	if mx, my := mirror(lit.X), lit.Y; mx != lit.X || (lit.Y != nil && mirror(lit.Y) != lit.Y) {
+		if lit.Y != nil {
+			my = mirror(lit.Y)
+		}
+		ml := Lit{Op: lit.Op, X: mx, Y: my, Val: lit.Val, At: lit.At}
+		switch ml.Op {
+		case token.ILLEGAL:
+			if b, ok := ConstBool(ml.X); ok && b != ml.Val {
+				return nil, false
+			}
+		case token.EQL:
+			if known, eq := knownEquality(ml.X, ml.Y); known && eq != ml.Val {
+				return nil, false
+			}
+			if IsNilConst(ml.Y) && (isErrorCtor(ml.X) || isSentinelError(ml.X)) && ml.Val {
+				return nil, false
+			}
+		}
+		dup := false
+		for _, l := range nl {
+			if sameTest(l, ml) {
+				if l.Val != ml.Val {
+					return nil, false
+				}
+				dup = true
+			}
+		}
+		if !dup {
+			if _, isConst := ml.X.(*ssa.Const); !isConst {
+				nl = append(nl, ml)
+			}
+		}
+	}
 	if !q.NoSummaries {
 		for _, il := range impliedByLit(lit) {
 			dup := false
@@ -556,7 +656,7 @@ func (q *PathQuery) assume(st *PathState, t *ssa.If, outcome bool) (*PathState, 
 			}
 		}
 	}
-	ns := &PathState{Lits: nl, Events: st.Events, Blocks: st.Blocks, phi: st.phi, mem: st.mem, loads: st.loads, armed: st.armed, ArmedAt: st.ArmedAt}
+	ns := &PathState{Lits: nl, Events: st.Events, Blocks: st.Blocks, phi: st.phi, mem: st.mem, loads: st.loads, rets: st.rets, bind: st.bind, inl: st.inl, armed: st.armed, ArmedAt: st.ArmedAt}
 	return ns, true
 }
 
@@ -702,6 +802,8 @@ func stateKey(b *ssa.BasicBlock, idx int, st *PathState, condPhis map[*ssa.Phi]b
 	}
 	sort.Strings(ls)
 	sb.WriteString(strings.Join(ls, ","))
+	sb.WriteString("|")
+	sb.WriteString(st.inl)
 	return sb.String()
 }
 
